@@ -90,6 +90,8 @@ func parseContractFile(path string, pc *PkgContracts) error {
 	}
 	var cur *FuncContract
 	var last *Clause
+	lastLet := false
+	var lastMod *FuncContract
 	for i, line := range strings.Split(string(data), "\n") {
 		l := strings.TrimSpace(line)
 		var body string
@@ -108,6 +110,26 @@ func parseContractFile(path string, pc *PkgContracts) error {
 			body = strings.TrimSpace(body[:j])
 		}
 		if !kwRe.MatchString(body) {
+			if last == nil && lastLet && cur != nil && len(cur.Lets) > 0 {
+				cur.Lets[len(cur.Lets)-1][1] += " " + body
+				continue
+			}
+			if last == nil && lastMod != nil {
+				// continuation of a modifies list
+				for _, it := range splitTop(body, ',') {
+					it = strings.TrimSpace(it)
+					if it == "" {
+						continue
+					}
+					mc := &Clause{Kind: "modifies", Text: it, Line: i + 1}
+					if j := strings.Index(mc.Text, " when "); j >= 0 {
+						mc.When = &Clause{Kind: "when", Text: strings.TrimSpace(mc.Text[j+6:]), Line: i + 1}
+						mc.Text = strings.TrimSpace(mc.Text[:j])
+					}
+					lastMod.Modifies = append(lastMod.Modifies, mc)
+				}
+				continue
+			}
 			if last == nil {
 				return fmt.Errorf("%s:%d: continuation without clause", path, i+1)
 			}
@@ -117,6 +139,8 @@ func parseContractFile(path string, pc *PkgContracts) error {
 		kw := kwRe.FindString(body)
 		rest := strings.TrimSpace(body[len(kw):])
 		last = nil
+		lastLet = kw == "let"
+		lastMod = nil
 		switch kw {
 		case "func", "lemma":
 			cur = &FuncContract{Pkg: pc.Path, PkgName: pc.Name, Loops: map[int]*LoopContract{}, File: path, Line: i + 1, Lemma: kw == "lemma"}
@@ -175,6 +199,8 @@ func parseContractFile(path string, pc *PkgContracts) error {
 					cur.ModifiesNothing = true
 					break
 				}
+				lastMod = cur
+				rest = strings.TrimSuffix(strings.TrimSpace(rest), ",")
 				for _, it := range splitTop(rest, ',') {
 					mc := &Clause{Kind: "modifies", Text: strings.TrimSpace(it), Line: i + 1}
 					if j := strings.Index(mc.Text, " when "); j >= 0 {
@@ -673,6 +699,14 @@ func genOverlay(pc *PkgContracts, files []*ast.File, specDir string) (string, er
 			noteImports(rtypes[i])
 		}
 	}
+	var pre strings.Builder
+	if data, err := os.ReadFile(filepath.Join(specDir, "prelude.go.txt")); err == nil {
+		pre.WriteString(string(data))
+	}
+	if data, err := os.ReadFile(filepath.Join(specDir, "prelude_"+pc.Name+".go.txt")); err == nil {
+		pre.WriteString(string(data))
+		noteImports(string(data))
+	}
 	sb.WriteString("// Code generated by govc; overlay only, never written to the repository.\n\n")
 	fmt.Fprintf(&sb, "package %s\n\n", pc.Name)
 	imports := map[string]string{}
@@ -694,12 +728,7 @@ func genOverlay(pc *PkgContracts, files []*ast.File, specDir string) (string, er
 		}
 		sb.WriteString(")\n\n")
 	}
-	if data, err := os.ReadFile(filepath.Join(specDir, "prelude.go.txt")); err == nil {
-		sb.WriteString(string(data))
-	}
-	if data, err := os.ReadFile(filepath.Join(specDir, "prelude_"+pc.Name+".go.txt")); err == nil {
-		sb.WriteString(string(data))
-	}
+	sb.WriteString(pre.String())
 	sb.WriteString(body.String())
 	return sb.String(), nil
 }
